@@ -117,6 +117,11 @@ Definition br_cell : parser (N * list N) :=
 Definition alt {A} (p q : parser A) : parser A :=
   fun s => match p s with Some x => Some x | None => q s end.
 
+(** the element assignment X[k]="..." holds a transition row "([k]=v ...)" or a string; the tables of
+    descriptions hold strings whatever they look like (a description may well be "([1]=2)") *)
+Definition is_descr_var (v : string) : bool :=
+  String.eqb v "descriptions" || String.eqb v "subword_descriptions".
+
 (** bash and zsh share the array syntax; they differ in the declaration keyword *)
 Section BashZsh.
 Variable sh : shell.
@@ -134,6 +139,8 @@ Definition bz_stmt : parser stmt :=
  (alt (let* _ := lit "    " in let* _ := lit kw_scalar in let* v := name in let* _ := lit "=" in
        let* n := nat10 in let* _ := eol in pret (SScalar v n))
  (alt (let* _ := lit "    " in let* v := name in let* _ := lit "[" in let* s := nat10 in let* _ := lit "]=" in
+       if is_descr_var v then (let* d := dq sh in let* _ := eol in pret (SStr v s d))
+       else
        alt (let* _ := lit """(" in let* l := sep_by br_pair " " in let* _ := lit ")""" in let* _ := eol in pret (SRow v s l))
            (let* d := dq sh in let* _ := eol in pret (SStr v s d)))
  (alt (let* _ := lit "    _" in let* v := name in let* _ := lit " """ in
